@@ -17,6 +17,7 @@ import (
 	"bytes"
 	"encoding/json"
 	"fmt"
+	"math/big"
 	"math/rand"
 	"os"
 	"reflect"
@@ -773,6 +774,15 @@ func main() {
 			w.Count(fmt.Sprintf("size:%d", n))
 		}
 	}
+	// 2e. size thresholds judged in Coq as well: the generator is expanded on both sides from n,
+	//     observations are summaries (counts, order-sensitive hashes of ids)
+	bigs := [][2]int{{0, 2051}}
+	if a.Tier == "thorough" {
+		bigs = [][2]int{{0, 2051}, {1, 2051}, {2, 2051}, {0, 4099}, {2, 4099}, {0, 257}, {2, 1025}}
+	}
+	for _, b := range bigs {
+		w.Add(bigCase(b[0], b[1]))
+	}
 	// 3. independently written documents
 	for i := 0; i < nDoc; i++ {
 		dg := &docGen{rng: rng, p: []float64{0.2, 0.5, 0.8, 1}[i%4]}
@@ -1025,4 +1035,113 @@ func sizeCase(cfg, n int) (string, interface{}) {
 		return fmt.Sprintf("document with %d elements: last way lost its nodes", n), desc
 	}
 	return "", desc
+}
+
+// ---- BIG cases (Check.v, check_big) ----
+var hmod = new(big.Int).SetUint64(2305843009213693951)
+
+func hashIDs(l []int64) int64 {
+	h := big.NewInt(7)
+	for _, x := range l {
+		h.Mul(h, big.NewInt(1000003))
+		h.Add(h, big.NewInt(x+1))
+		h.Mod(h, hmod)
+	}
+	return h.Int64()
+}
+
+func bigKind(i int) int {
+	switch {
+	case i%2 == 0:
+		return 1
+	case i%4 == 1:
+		return 2
+	}
+	return 3
+}
+
+func osmSummary(o *osm.OSM) []int64 {
+	var n, wy, r []int64
+	for _, e := range o.Nodes {
+		n = append(n, int64(e.ID))
+	}
+	for _, e := range o.Ways {
+		wy = append(wy, int64(e.ID))
+	}
+	for _, e := range o.Relations {
+		r = append(r, int64(e.ID))
+	}
+	other := int64(len(o.Changesets) + len(o.Notes) + len(o.Users))
+	if o.Bounds != nil {
+		other++
+	}
+	return []int64{int64(len(n)), hashIDs(n), int64(len(wy)), hashIDs(wy), int64(len(r)), hashIDs(r), other}
+}
+
+func bigCase(cfg, n int) *wire.Case {
+	install(cfg)
+	defer install(0)
+	c := &wire.Case{Class: "big/" + configs[cfg]}
+	c.Int(6).Int(int64(cfg)).Int(int64(n))
+	desc := map[string]interface{}{"codec": configs[cfg], "elements": n, "generator": "element i: id i+1, lat i%90, lon 0.5; node if i even, way if i%4==1, relation if i%4==3"}
+	// (a) the document
+	doc := jobj().set("version", jdec(6, 1))
+	es := &jnode{k: jArr}
+	val := &osm.OSM{Version: "0.6"}
+	for i := 0; i < n; i++ {
+		k := bigKind(i)
+		es.arr = append(es.arr, jobj().set("type", js([]string{"", "node", "way", "relation"}[k])).set("id", jint(int64(i+1))).
+			set("lat", jint(int64(i%90))).set("lon", jdec(5, 1)))
+		switch k {
+		case 1:
+			val.Nodes = append(val.Nodes, &osm.Node{ID: osm.NodeID(i + 1), Lat: float64(i % 90), Lon: 0.5})
+		case 2:
+			val.Ways = append(val.Ways, &osm.Way{ID: osm.WayID(i + 1)})
+		default:
+			val.Relations = append(val.Relations, &osm.Relation{ID: osm.RelationID(i + 1)})
+		}
+	}
+	doc.set("elements", es)
+	var buf bytes.Buffer
+	writeCompact(&buf, doc)
+	fromDoc := &osm.OSM{}
+	derr := json.Unmarshal(buf.Bytes(), fromDoc)
+	c.Bool(derr != nil).Ints(osmSummary(fromDoc))
+	desc["document_decoded"] = map[string]interface{}{"error": errText(derr), "summary": osmSummary(fromDoc)}
+	// (b) the value
+	b, merr := json.Marshal(val)
+	tsum := []int64{-1, -1}
+	back := &osm.OSM{}
+	var uerr error = errFlag{}
+	if merr == nil {
+		if t, err := readTree(b); err == nil {
+			if el := t.get("elements"); el != nil && el.k == jArr {
+				var codes []int64
+				for _, e := range el.arr {
+					code := int64(-1)
+					if e.k == jObj && e.get("type") != nil && e.get("type").k == jStr && e.get("id") != nil && e.get("id").k == jNum && e.get("id").e == 0 {
+						kc := int64(9)
+						switch e.get("type").s {
+						case "node":
+							kc = 1
+						case "way":
+							kc = 2
+						case "relation":
+							kc = 3
+						}
+						code = kc*1000000007 + e.get("id").m
+					}
+					codes = append(codes, code)
+				}
+				tsum = []int64{int64(len(el.arr)), hashIDs(codes)}
+			}
+		}
+		uerr = json.Unmarshal(b, back)
+	}
+	c.Bool(merr != nil).Ints(tsum)
+	c.Bool(uerr != nil).Ints(osmSummary(back))
+	desc["value_marshalled"] = map[string]interface{}{"error": errText(merr), "tree_summary": tsum}
+	desc["own_output_decoded"] = map[string]interface{}{"error": errText(uerr), "summary": osmSummary(back)}
+	c.Desc = desc
+	return c
 }
